@@ -6,6 +6,8 @@
 (*       arithmetic (Indent.tla GenerateReplacement)                       *)
 (*  mode "edit" (C06): the real edits of Node::replace_all, of `sg scan    *)
 (*       --json`, and the file after `--update-all`                        *)
+(*  mode "rewrite" (C06): the text a `rewrite` transformation produced vs  *)
+(*       the captured text with the rewriters' edits substituted            *)
 (***************************************************************************)
 EXTENDS Template, Replace, Positions, Tree, Lexers, Json, IOUtils, TLC
 
@@ -63,8 +65,20 @@ EditReasons(r) ==
                \cup (IF r.applied = Len(acc) THEN {} ELSE {"applied-count"})
                \cup (IF r.after_utf8 THEN {} ELSE {"file-not-utf8"}))
 
-Reasons(r) == IF r.mode = "tpl" THEN TplReasons(r) ELSE EditReasons(r)
-Drift(r)   == IF r.mode = "tpl" THEN TplDrift(r) ELSE {}
+\* ---- C06, `rewrite` transformations ---------------------------------------------
+RewriteReasons(r) ==
+    LET old == SubSeq(r.src, r.cs + 1, r.ce)
+        es == RewriteEdits(r.cands) IN
+    (IF r.has_out THEN {} ELSE {"rewrite-produced-nothing"})
+    \cup (IF r.out_utf8 THEN {} ELSE {"rewrite-not-utf8"})
+    \cup (IF ~r.has_out THEN {}
+          ELSE IF r.join THEN (IF r.out = RewriteJoin(es, r.cs, r.joiner) THEN {} ELSE {"rewrite-joined-text"})
+          ELSE IF RewriteP(old, es, r.cs, r.out) THEN {} ELSE {"rewrite-text-not-capture-with-edits-substituted"})
+RewriteDrift(r) ==
+    IF r.has_out /\ ~r.join /\ r.out # RewriteSplice(SubSeq(r.src, r.cs + 1, r.ce), RewriteEdits(r.cands), r.cs) THEN {"rewrite-splice-model"} ELSE {}
+
+Reasons(r) == IF r.mode = "tpl" THEN TplReasons(r) ELSE IF r.mode = "rewrite" THEN RewriteReasons(r) ELSE EditReasons(r)
+Drift(r)   == IF r.mode = "tpl" THEN TplDrift(r) ELSE IF r.mode = "rewrite" THEN RewriteDrift(r) ELSE {}
 
 Init == l = 1 /\ pFail = <<>>
 Step == /\ l <= Len(Recs)
